@@ -67,7 +67,7 @@ pub struct Hist {
     /// overwrite buf[n..] with garbage on every successful read (legal: bytes past n are unspecified)
     pub scribble: bool,
     pub sub: u8,
-    /// call context: 0 the worker thread itself; 1 a freshly spawned thread with a small (192 KiB) stack;
+    /// call context: 0 the worker thread itself; 1 a freshly spawned thread with a small (128 KiB) stack;
     /// 2 inside a thread-local destructor at thread exit, on a thread that has used the library before
     pub ctx: u8,
 }
@@ -633,14 +633,14 @@ impl Scenario for C12 {
                 let mut local = Stats::default();
                 let out = std::thread::scope(|sc| {
                     std::thread::Builder::new()
-                        .stack_size(192 * 1024)
+                        .stack_size(128 * 1024)
                         .spawn_scoped(sc, || self.execute_inner(h, &mut local))
                         .expect("spawn")
                         .join()
                 });
                 st.merge(&local);
                 out.unwrap_or_else(|_| Outcome {
-                    violation: Some(Violation { class: "panic:on-small-stack-thread".into(), detail: "the call panicked on a thread with a 192 KiB stack".into() }),
+                    violation: Some(Violation { class: "panic:on-small-stack-thread".into(), detail: "the call panicked on a thread with a 128 KiB stack".into() }),
                     digest: 0,
                     nontrivial: true,
                     states: vec![],
